@@ -1,10 +1,11 @@
-/- GENERATED on every run by harness (py2lean.py) from src/py_gql/lang/lexer.py (Lexer._read_name, Lexer._read_over_digits).
+/- GENERATED on every run by harness (py2lean.py) from src/py_gql/lang/lexer.py (Lexer._read_name, _read_over_digits, _read_over_integer, _read_over_whitespace).
    Do not edit: the check rewrites this file from /repo's working tree. -/
 /- Translated by py2lean.Tr. Constructs used and how they were read:
      * `is None` on a str/int-typed variable -> constant
      * index (IndexError explicit)
      * method: self.X -> variable self_X; mutated attributes returned next to the result
      * raise
+     * self.m() -> call of the translated method on the current attribute values
      * slice
      * try/except <classes> (one-statement body) -> match on the raised class name
      * while -> recursion on explicit fuel (OutOfFuel is an exception)
@@ -13,7 +14,8 @@
 /- Methods of `Lexer`: `self._source` is the parameter `self__source`, `self._position` the parameter `self__position`
    whose final value is returned next to the result; `Name(start, end, value)` is the triple of its arguments;
    `digits` / `ascii_letters` are the constants of the standard `string` module (checked: imported from there);
-   the exception arguments (position, source) are dropped. -/
+   the exception arguments (position, source) are dropped; `self._read_over_digits()` is the translated method above run on
+   the current attribute values; the default parameter `__ignored` is the module literal IGNORED_CHARS. -/
 import PyGqlModel.PyPrelude
 set_option linter.unusedVariables false
 namespace PyGql.Generated.Tr
@@ -133,5 +135,156 @@ def Lexer._read_over_digits (self__source : List Nat) (self__position : Int) : E
           | .raise e__ => (.error e__)
           | .fall (self__position, char) =>
             (.ok ((), self__position)))))
+
+/-
+def _read_over_integer(self):
+        try:
+            char = self._source[self._position]
+        except IndexError:
+            raise UnexpectedEOF(self._position, self._source)
+
+        if char == "0":
+            self._position += 1
+            try:
+                char = self._source[self._position]
+            except IndexError:
+                pass
+            else:
+                if char in digits:
+                    raise UnexpectedCharacter(
+                        'Unexpected character "%s"' % char,
+                        self._position,
+                        self._source,
+                    )
+        else:
+            self._read_over_digits()
+-/
+def Lexer._read_over_integer (self__source : List Nat) (self__position : Int) : Except String (Unit × Int) :=
+  (match ((match (Py.getItem self__source self__position) with
+    | .error e__ => (.raise e__)
+    | .ok char =>
+      (.fall char)) : Py.Flow String Nat (Unit × Int)) with
+    | .ret r__ => (.ok r__)
+    | .raise e__ =>
+      (if e__ == "IndexError" then
+        (.error "UnexpectedEOF")
+      else
+        (.error e__))
+    | .fall char =>
+      (if (char == 48) then
+        (let self__position := (self__position + (1 : Int))
+         (match ((match (Py.getItem self__source self__position) with
+           | .error e__ => (.raise e__)
+           | .ok char =>
+             (.fall char)) : Py.Flow String Nat (Unit × Int)) with
+           | .ret r__ => (.ok r__)
+           | .raise e__ =>
+             (if e__ == "IndexError" then
+               (.ok ((), self__position))
+             else
+               (.error e__))
+           | .fall char =>
+             (if (([48, 49, 50, 51, 52, 53, 54, 55, 56, 57] : List Nat).contains char) then
+               (.error "UnexpectedCharacter")
+             else
+               (.ok ((), self__position)))))
+      else
+        (match (Lexer._read_over_digits self__source self__position) with
+          | .error e__ => (.error e__)
+          | .ok (_, self__position) =>
+            (.ok ((), self__position)))))
+
+/-
+def _read_over_whitespace(
+        self
+    ) -> None:
+        pos = self._position
+        while True:
+            try:
+                char = self._source[pos]
+            except IndexError:
+                break
+
+            if char in __ignored:
+                pos += 1
+            elif char == "#":
+                pos += 1
+                while True:
+                    try:
+                        char = self._source[pos]
+                    except IndexError:
+                        break
+
+                    if (char >= " " or char == "\t") and char not in "\n\r":
+                        pos += 1
+                    else:
+                        break
+            else:
+                break
+
+        self._position = pos
+-/
+def Lexer._read_over_whitespace.while2 (self__source : List Nat) : Nat → Nat → Int → Py.Flow String (Nat × Int) (Unit × Int)
+  | 0, char, pos => .raise "OutOfFuel"
+  | fuel__ + 1, char, pos =>
+    (if true then
+      (match ((match (Py.getItem self__source pos) with
+        | .error e__ => (.raise e__)
+        | .ok char =>
+          (.fall char)) : Py.Flow String Nat (Unit × Int)) with
+        | .ret r__ => (.ret r__)
+        | .raise e__ =>
+          (if e__ == "IndexError" then
+            (.fall (char, pos))
+          else
+            (.raise e__))
+        | .fall char =>
+          (if (((decide (char ≥ 32)) || (char == 9)) && (!([10, 13] : List Nat).contains char)) then
+            (let pos := (pos + (1 : Int))
+             (Lexer._read_over_whitespace.while2 self__source fuel__ char pos))
+          else
+            (.fall (char, pos))))
+    else
+      (.fall (char, pos)))
+
+def Lexer._read_over_whitespace.while1 (self__source : List Nat) : Nat → Int → Py.Flow String Int (Unit × Int)
+  | 0, pos => .raise "OutOfFuel"
+  | fuel__ + 1, pos =>
+    (if true then
+      (match ((match (Py.getItem self__source pos) with
+        | .error e__ => (.raise e__)
+        | .ok char =>
+          (.fall char)) : Py.Flow String Nat (Unit × Int)) with
+        | .ret r__ => (.ret r__)
+        | .raise e__ =>
+          (if e__ == "IndexError" then
+            (.fall pos)
+          else
+            (.raise e__))
+        | .fall char =>
+          (if (([10, 13, 65279, 9, 32, 44] : List Nat).contains char) then
+            (let pos := (pos + (1 : Int))
+             (Lexer._read_over_whitespace.while1 self__source fuel__ pos))
+          else
+            (if (char == 35) then
+              (let pos := (pos + (1 : Int))
+               (match (Lexer._read_over_whitespace.while2 self__source ((((Py.len self__source) - pos) + (1 : Int))).toNat char pos) with
+                 | .ret r__ => (.ret r__)
+                 | .raise e__ => (.raise e__)
+                 | .fall (char, pos) =>
+                   (Lexer._read_over_whitespace.while1 self__source fuel__ pos)))
+            else
+              (.fall pos))))
+    else
+      (.fall pos))
+
+def Lexer._read_over_whitespace (self__source : List Nat) (self__position : Int) : Except String (Unit × Int) :=
+  (let pos := self__position
+   (match (Lexer._read_over_whitespace.while1 self__source ((((Py.len self__source) - pos) + (1 : Int))).toNat pos) with
+     | .ret r__ => (.ok r__)
+     | .raise e__ => (.error e__)
+     | .fall pos =>
+       (let self__position := pos
+        (.ok ((), self__position)))))
 
 end PyGql.Generated.Tr
